@@ -6,7 +6,7 @@ import ast
 import networkx as nx
 
 from ..cfg import CFG, ENTRY, EXIT, RAISE
-from ..interp import Interp, SELF, contains, show, strip_typed, walk
+from ..interp import _strip_not, Interp, SELF, contains, show, strip_typed, walk
 from ..model import AnalysisError, ClassInfo, FuncInfo, dotted
 from . import util
 from .util import text
@@ -442,6 +442,21 @@ REJECTIONS = [
      and strip_typed(c)[3][0] in ("tuple", "list", "set") and sorted(map(repr, strip_typed(c)[3][1])) == [repr(("const", 2)), repr(("const", 3))],
      "an unsupported number of levels builds a Hamiltonian with 2- or 3-level operator blocks"),
     ("emu_sv.sv_backend_impl.SVBackendImpl.__init__", "emu_sv.sv_backend_impl.SVBackendImpl",
+     "a Hamiltonian other than Rydberg",
+     lambda c, t, p: strip_typed(c)[0] == "cmp" and strip_typed(c)[1] == "==" and "hamiltonian_type" in show(c)
+     and "Rydberg" in show(c) and t is False,
+     "an XY sequence is emulated with the Ising Hamiltonian"),
+    ("emu_sv.sv_backend_impl.SVBackendImpl.__init__", "emu_sv.sv_backend_impl.SVBackendImpl",
+     "a number of levels other than 2",
+     lambda c, t, p: strip_typed(c)[0] == "cmp" and strip_typed(c)[1] == "==" and show(strip_typed(c)[2]).endswith(".dim")
+     and strip_typed(c)[3] == ("const", 2) and t is False,
+     "a leakage (3-level) sequence is emulated with two-level operators"),
+    ("emu_sv.sv_backend_impl.SVBackendImpl.__init__", "emu_sv.sv_backend_impl.SVBackendImpl",
+     "an initial state with another number of atoms",
+     lambda c, t, p: strip_typed(c)[0] == "cmp" and strip_typed(c)[1] == "==" and "n_qudits" in show(c)
+     and t is False,
+     "an initial state of the wrong size is evolved under the sequence's Hamiltonian"),
+    ("emu_sv.sv_backend_impl.SVBackendImpl.__init__", "emu_sv.sv_backend_impl.SVBackendImpl",
      "initial state together with state-preparation errors",
      lambda c, t, p: "state_prep_error" in show(c) and t is True and any("initial_state is None" in show(c2) and t2 is False for c2, t2 in p.cond_log),
      "a user initial state is combined with randomly removed atoms"),
@@ -465,7 +480,12 @@ def rejections(ctx) -> None:
             n = ev[-1].ncond
             if n >= 1:
                 c, t = p.cond_log[n - 1]
-                if pred(c, t, p):
+                # a compound condition held in a local (`bad = a or b; if bad: raise`): any disjunct may be the reason
+                c0 = strip_typed(c)
+                cands = [(c, t)]
+                if c0[0] == "bool" and ((c0[1] == "or" and t) or (c0[1] == "and" and not t)):
+                    cands = [_strip_not(part, t) for part in c0[2]]
+                if any(pred(cc, tt, p) for cc, tt in cands):
                     hit = True
         ctx.ob("DISPATCH-reject", f"{q}|{label}", f.loc(), hit,
                f"{f.name} raises for: {label}" if hit else
